@@ -239,7 +239,8 @@ def validate(_, mapfiles, expand, version):
     click.echo(
         f"{len(all_mapfiles)} file(s) validated ({validation_count} successfully)"
     )
-    sys.exit(errors)
+    # an exit status is one byte: 256 problems would otherwise be reported as 0 (success)
+    sys.exit(min(errors, 255))
 
 
 @main.command(short_help="Export a Mapfile Schema")
